@@ -1312,7 +1312,8 @@ impl Options {
                 count += 12;
             } else {
                 // More leading or trailing zeros than the exponent digits.
-                count += exp;
+                // NOTE: the breaks are only bounded by their type.
+                count = count.saturating_add(exp);
             }
         } else if cfg!(feature = "power-of-two") {
             // Min is 2^-1075.
@@ -1359,7 +1360,8 @@ impl Options {
         } else {
             max!(digits, formatted_digits)
         };
-        count += digits;
+        // NOTE: `min_significant_digits` is only bounded by its type.
+        count = count.saturating_add(digits);
 
         // we need to make sure we have at least enough room for the
         // default formatting size, no matter what, just as a precaution.
